@@ -6,7 +6,7 @@ import copy
 from sim.core import Violation, Inconclusive, InjectedAbort, RandomProxy, patched_random, close
 from sim.models import nested_variant_spec, gen_mdp_spec, MDPView, make_mdp, sibling_mdp_spec, rotated_probability_spec, update_model_in_place
 from sim.refsolve import game_W
-from sim.ctx import RunCtx, make_scheduler, gen_sched
+from sim.ctx import RunCtx, make_scheduler, gen_sched, construct
 from sim import shrink as shr
 
 PROP = 'C10'
@@ -84,7 +84,7 @@ def execute(case, script=None):
     ctx = RunCtx(PROP, view)
     ctx.W = game_W(view)
     ctx.declare_probes('episode_from_absorbing_start', 'bootstrap_from_absorbing', 'argmax_tie',
-                       'listener_reentry', 'step_size_one', 'learner_reused', 'no_seed_given', 'zero_episodes', 'rerun_after_abort', 'model_updated_in_place', 'nested_run', 'first_result_checked_after_reuse')
+                       'listener_reentry', 'step_size_one', 'learner_reused', 'no_seed_given', 'zero_episodes', 'rerun_after_abort', 'model_updated_in_place', 'nested_run', 'first_result_checked_after_reuse', 'constructed_by_position')
     sched = make_scheduler(case, script, ctx)
     try:
         return _execute(td, view, cfg, ctx, sched)
@@ -253,7 +253,10 @@ def _execute(td, view, cfg, ctx, sched):
                   initial_q=q0arg, seed=cfg['seed'], event_listener_class=L)
     with patched_random([td], proxy):
         try:
-            learner = cls(**kwargs)
+            positional = (len(view.spec['trans']) + view.n) % 3 == 0          # a third of the learners are built by position
+            if positional:
+                ctx.probe('constructed_by_position')
+            learner = construct(cls, 'TD', kwargs, positional)
             if rview is not None:
                 sched.fire('F9_model_updated_in_place')
                 ctx.probe('model_updated_in_place')
